@@ -133,12 +133,103 @@ def atoms_of(f, cond, truth, src=None, lab=None):
         if not truth:
             return atoms_of(f, e["c"][0], False, src, lab) + atoms_of(f, e["c"][1], False, src, lab)
         return []
+    if k == "bin" and e["op"] in ("==", "!="):
+        # `flag == FALSE`, `0 != flag` with a flag that holds the outcome of a condition
+        for a, b in ((e["c"][0], e["c"][1]), (e["c"][1], e["c"][0])):
+            if ex.const(f, b) == 0:
+                d = _flag_definition(f, a, src)
+                if d is not None:
+                    return atoms_of(f, d, truth if e["op"] == "!=" else not truth, src, lab)
     if k == "bin" and e["op"] in NEG:
         rel = e["op"] if truth else NEG[e["op"]]
         return [Atom(rel, Operand(f, e["c"][0]), Operand(f, e["c"][1]), src, lab, j)]
     if k == "bin" and e["op"] == ",":
         return atoms_of(f, e["c"][1], truth, src, lab)
+    d = _flag_definition(f, j, src)
+    if d is not None:
+        return atoms_of(f, d, truth, src, lab)
     return [Atom("!=" if truth else "==", Operand(f, j), ZERO, src, lab, j)]
+
+
+_BOOLISH = ("<", ">", "<=", ">=", "==", "!=", "&&", "||")
+
+
+def _flag_definition(f, node, src, depth=0):
+    """`node` reads a local that was assigned the outcome of a condition exactly once, in a block that dominates
+    the branch block `src`, and nothing the condition reads is stored to in between: the condition node, else None.
+    (A branch on such a flag is a branch on the condition as it stood when the flag was set.)"""
+    j = ex.skip(f, node)
+    e = f.exprs[j]
+    while e["k"] == "cast":
+        j = ex.skip(f, e["c"][0])
+        e = f.exprs[j]
+    if e["k"] != "ref" or e.get("dk") != "local" or src is None:
+        return None
+    name = e["name"]
+    c = f._cache.setdefault("flag_defs", {})
+    if name not in c:
+        defs = []
+        for bid, i in flow.all_events(f):
+            for lhs, var, op, rhs in flow.stores(f, i):
+                nm = var["name"] if var is not None else None
+                if nm is None and lhs is not None:
+                    le = f.exprs[ex.skip(f, lhs)]
+                    if le["k"] == "ref" and le.get("dk") == "local":
+                        nm = le["name"]
+                if nm == name:
+                    defs.append((bid, i, op, rhs))
+        taken = any(x["k"] == "un" and x["op"] == "&" and f.exprs[ex.skip(f, x["c"][0])].get("name") == name
+                    and f.exprs[ex.skip(f, x["c"][0])]["k"] == "ref" for x in f.exprs)
+        c[name] = None
+        if len(defs) == 1 and not taken and defs[0][2] == "=" and defs[0][3] is not None:
+            r = ex.skip(f, defs[0][3])
+            re_ = f.exprs[r]
+            while re_["k"] == "cast":
+                r = ex.skip(f, re_["c"][0])
+                re_ = f.exprs[r]
+            if (re_["k"] == "bin" and re_["op"] in _BOOLISH) or (re_["k"] == "un" and re_["op"] == "!"):
+                c[name] = (defs[0][0], defs[0][1], r)
+    d = c[name]
+    if d is None:
+        return None
+    dbid, di, r = d
+    if dbid != src and not flow.dominates(f, dbid, src):
+        return None
+    # nothing the condition reads is stored to between the definition and the branch
+    o = Operand(f, r)
+    pos = flow.elem_pos(f)
+    if di not in pos:
+        return None
+    if dbid == src:
+        span = [(dbid, pos[di][1] + 1, None)]
+    else:
+        fwd = flow.reach_from(f, dbid)
+        back = set()
+        st = [src]
+        while st:
+            n = st.pop()
+            if n in back:
+                continue
+            back.add(n)
+            st.extend(f.blocks[n].preds)
+        span = [(dbid, pos[di][1] + 1, None)] + [(m, 0, None) for m in (fwd & back) - {dbid}]
+    for bid, a, b in span:
+        for i in f.blocks[bid].elems[a:b]:
+            if not flow.is_event(f, i):
+                continue
+            for lhs, var, op, rhs in flow.stores(f, i):
+                if var is not None and var["name"] in o.locals:
+                    return None
+                if lhs is None:
+                    continue
+                le = f.exprs[ex.skip(f, lhs)]
+                while le["k"] == "idx":
+                    le = f.exprs[ex.skip(f, le["c"][0])]
+                if le["k"] == "ref" and le.get("name") in o.locals:
+                    return None
+                if le["k"] == "mem" and "%s.%s" % (le.get("in"), le["member"]) in o.fields:
+                    return None
+    return r
 
 
 def dominating_atoms(f, bid):
@@ -153,6 +244,15 @@ def dominating_atoms(f, bid):
             continue
         if lab in ("T", "F"):
             out.extend(atoms_of(f, cond, lab == "T", src, lab))
+            # a flag that is only ever assigned constants, with a single non-zero one: finding it set means that
+            # store was executed, so whatever dominates that store held on the way here
+            tb = _const_flag_set_block(f, cond, lab == "T", src)
+            if tb is not None and tb != bid and tb not in c.get("_busy", ()):
+                c.setdefault("_busy", set()).add(tb)
+                try:
+                    out.extend(dominating_atoms(f, tb))
+                finally:
+                    c["_busy"].discard(tb)
         elif isinstance(lab, tuple):
             L = Operand(f, cond)
             if lab[1] == lab[2]:
@@ -162,6 +262,53 @@ def dominating_atoms(f, bid):
                 out.append(Atom("<=", L, _Const(lab[2]), src, lab, cond))
     c[bid] = out
     return out
+
+
+def _const_flag_set_block(f, cond, truth, src):
+    """Block of the single `flag = <non-zero constant>` store when the edge (cond, truth) says the flag is set."""
+    j = ex.skip(f, cond)
+    e = f.exprs[j]
+    n = 0
+    while n < 6:
+        n += 1
+        if e["k"] == "cast":
+            j = ex.skip(f, e["c"][0])
+            e = f.exprs[j]
+        elif e["k"] == "un" and e["op"] == "!":
+            truth = not truth
+            j = ex.skip(f, e["c"][0])
+            e = f.exprs[j]
+        elif e["k"] == "bin" and e["op"] in ("==", "!=") and (ex.const(f, e["c"][1]) == 0 or ex.const(f, e["c"][0]) == 0):
+            if e["op"] == "==":
+                truth = not truth
+            j = ex.skip(f, e["c"][0] if ex.const(f, e["c"][1]) == 0 else e["c"][1])
+            e = f.exprs[j]
+        else:
+            break
+    if not truth or e["k"] != "ref" or e.get("dk") != "local":
+        return None
+    name = e["name"]
+    cc = f._cache.setdefault("const_flags", {})
+    if name not in cc:
+        sets, ok = [], True
+        for bid, i in flow.all_events(f):
+            for lhs, var, op, rhs in flow.stores(f, i):
+                nm = var["name"] if var is not None else None
+                if nm is None and lhs is not None:
+                    le = f.exprs[ex.skip(f, lhs)]
+                    if le["k"] == "ref" and le.get("dk") == "local":
+                        nm = le["name"]
+                if nm != name:
+                    continue
+                v = ex.const(f, rhs) if (rhs is not None and op == "=") else None
+                if v is None:
+                    ok = False
+                elif v != 0:
+                    sets.append(bid)
+        taken = any(x["k"] == "un" and x["op"] == "&" and f.exprs[ex.skip(f, x["c"][0])]["k"] == "ref"
+                    and f.exprs[ex.skip(f, x["c"][0])].get("name") == name for x in f.exprs)
+        cc[name] = sets[0] if (ok and not taken and len(sets) == 1) else None
+    return cc[name]
 
 
 class _Const(_Zero):
